@@ -1,5 +1,5 @@
 (** Property C11 — the TIR wire format round-trips. *)
-From Tx3 Require Import Base Tir PlutusData Serde Serde_proofs.
+From Tx3 Require Import Base Tir PlutusData Serde Serde_proofs Serde_back.
 
 (** ciborium's encoding of the data model is inverted by the decoder, for every value *)
 Theorem C11_decode_encode : forall v, ok_cval v = true ->
@@ -13,6 +13,25 @@ Proof. exact wire_roundtrip. Qed.
 Theorem C11_layout_distinguishes_constructors : forall e1 e2, outer_names e1 = outer_names e2 -> ctor_id e1 = ctor_id e2.
 Proof. exact ctor_of_names. Qed.
 
+(** the way back (what Deserialize does): reading the laid-out value of any expression whose byte
+    strings are byte strings returns that expression - directive fields in key order, since the
+    IR keeps them in an unordered map - so the layout loses nothing and confuses nothing *)
+Theorem C11_expression_roundtrip : forall e, wf_e e = true ->
+  exists f0, forall f, (f0 <= f)%nat -> of_cval f (to_cval e) = Some (norm e).
+Proof. exact of_cval_to_cval. Qed.
+
+(** and from the bytes: decoding the encoding of an expression and reading the value back gives
+    the expression, consuming exactly the bytes written *)
+Theorem C11_wire_expression_roundtrip : forall e, wf_e e = true -> ok_cval (to_cval e) = true ->
+  exists f0, forall f, (f0 <= f)%nat ->
+    match decode_cval f (encode_cval (to_cval e)) with
+    | Some (v, rest) => rest = [] /\ of_cval f v = Some (norm e)
+    | None => False
+    end.
+Proof. exact wire_expression_roundtrip. Qed.
+
+Print Assumptions C11_wire_expression_roundtrip.
+Print Assumptions C11_expression_roundtrip.
 Print Assumptions C11_decode_encode.
 Print Assumptions C11_wire_roundtrip.
 Print Assumptions C11_layout_distinguishes_constructors.
